@@ -80,9 +80,16 @@ fn streams(ctx: &Ctx, t: &mut Tape<'_>, r: &mut Report) -> CheckResult {
             ensure!(res.is_ok(), format!("C08/seek-rejected/{ty}"), "seek to {start} failed");
         }
     }
-    let pieces = run_stream(a.as_mut(), &data, &cuts, &kinds, pre).map_err(|v| with_sig("C08", &ty, v))?;
+    let pieces = run_stream_opt(a.as_mut(), &data, &cuts, &kinds, pre);
     let mut whole = vec![0u8; len];
-    ensure!(b.try_apply(ApplyKind::Inout, &data, &mut whole).is_ok(), format!("C08/apply-rejected/{ty}"), "single call of {len} bytes failed");
+    let whole_ok = b.try_apply(ApplyKind::Inout, &data, &mut whole).is_ok();
+    ensure!(pieces.is_some() == whole_ok, format!("C08/verdict-pieces-vs-whole/{ty}"), "the pieces were {} but the single call of {len} bytes was {}", if pieces.is_some() { "accepted" } else { "refused" }, if whole_ok { "accepted" } else { "refused" });
+    let Some(pieces) = pieces else {
+        // both ways refused the same data: nothing to compare here (whether that is right is C11's business)
+        r.label("both-refused");
+        r.nontrivial = false;
+        return Ok(());
+    };
     ensure_eq_bytes!(pieces, whole, format!("C08/pieces-vs-whole/{ty}"), "cuts {}", describe_cuts(&cuts));
     // and the two instances are in the same state afterwards
     let tail = tape::bytes(3, 0xC08, bs + 3);
